@@ -386,6 +386,6 @@ func TestC13(t *testing.T) {
 		"the conversion table (N1 §5.5) is asserted only where unambiguous: identity, type-level rows, canonical string renderings, lexically foreign strings; String→Integer and String→Decimal follow the N1 regular expressions exactly (so '1e3', '.5', '1.' are not convertible); near-valid DateTime/Time/Quantity strings ('T10:00', '5 mg') are checked by the relational laws only")
 	runProperty(t, r,
 		Stage[c13Case]{Name: "pool", Enum: c13Enum, Run: c13Run},
-		Stage[c13Case]{Name: "strings", Gen: c13Gen, Run: c13Run, N: pick(5000, 150000)},
+		Stage[c13Case]{Name: "strings", Gen: c13Gen, Run: c13Run, N: pick(15000, 150000)},
 	)
 }
